@@ -82,6 +82,7 @@ fn suite_board(cx: &mut Ctx, tier: &str, shard: usize, nshards: usize, variant: 
     family_rights_defects(&mut fam);
     family_ep_defects(&mut fam);
     family_ep_lines(&mut fam);
+    family_minor_stalemates(&mut fam);
     let n_defects = fam.len() - before_defects;
     let stride = tier_n(tier, 6, 1);
     let off = cx.rng.below(stride);
